@@ -91,6 +91,14 @@ reg("tt:ogden_roxburgh(neo_hooke)", "tensortrax", st.fixed_dictionaries({"mu": f
 reg("tt:finite_strain_viscoelastic", "tensortrax", st.fixed_dictionaries({"mu": fl(0.3, 3), "eta": fl(0.2, 5), "dtime": fl(0.1, 2)}),
     fun="finite_strain_viscoelastic", nstate=6, hyper=False)
 reg("tt:morph", "tensortrax", st.fixed_dictionaries({"scale": fl(0.8, 1.2)}), fun="morph", nstate=13, hyper=False, tol_fd=2e-5)
+# user-assembled micro-sphere energies from the public building blocks (frameworks x chain functions)
+for _fw in ("affine_stretch", "affine_tube", "nonaffine_stretch", "nonaffine_tube"):
+    for _ch in ("linear", "langevin"):
+        reg(f"tt:microsphere({_fw}+{_ch})", "tensortrax", st.fixed_dictionaries({"mu": fl(0.3, 3), "N": fl(6, 30), "pq": fl(1.2, 3)}),
+            energy=True, fun=f"microsphere:{_fw}:{_ch}", micro=True, iso=False, lam=(0.8, 1.35))
+# MORPH without the exponential term (p[6] = 0): the symmetric-only expm() of tensortrax (finding F10) then has nothing to act
+# on in the stress, so that e.g. the symmetry of the Kirchhoff stress can be decided on non-coaxial histories as well
+reg("tt:morph(p6=0)", "tensortrax", st.fixed_dictionaries({"scale": fl(0.8, 1.2)}), fun="morph_p6", nstate=13, hyper=False, tol_fd=2e-5)
 reg("tt:morph_representative_directions", "tensortrax", st.fixed_dictionaries({"scale": fl(0.8, 1.2)}), fun="morph_representative_directions",
     nstate=84, hyper=False, iso=False, micro=True, tol_fd=2e-5)
 reg("tt:total_lagrange(neo_hooke)", "tensortrax", st.fixed_dictionaries({"mu": fl(0.2, 5)}), fun="total_lagrange")
@@ -166,6 +174,22 @@ def _build(name, params):
             return tt.Hyperelastic(M.ogden_roxburgh, material=M.neo_hooke, nstatevars=1, **p)
         if f == "finite_strain_viscoelastic":
             return tt.Hyperelastic(M.finite_strain_viscoelastic, nstatevars=6, **p)
+        if f.startswith("microsphere:"):
+            import felupe.constitution.tensortrax.models.hyperelastic.microsphere as ms
+
+            _, fw, ch = f.split(":")
+            chain = getattr(ms, ch)
+            ckw = {"mu": p["mu"]} if ch == "linear" else {"mu": p["mu"], "N": p["N"]}
+            frame = getattr(ms, fw)
+            if fw.startswith("nonaffine"):
+                def psi(C, frame=frame, chain=chain, ckw=ckw, e_=p["pq"]):
+                    return frame(C, e_, f=chain, kwargs=ckw)
+            else:
+                def psi(C, frame=frame, chain=chain, ckw=ckw):
+                    return frame(C, f=chain, kwargs=ckw)
+            return tt.Hyperelastic(psi)
+        if f == "morph_p6":
+            return tt.Material(L.morph, p=[0.0 if i == 6 else (v * p["scale"] if i in (0, 1, 2) else v) for i, v in enumerate(MORPH_P)], nstatevars=13)
         if f == "morph":
             return tt.Material(L.morph, p=[v * p["scale"] if i in (0, 1, 2) else v for i, v in enumerate(MORPH_P)], nstatevars=13)
         if f == "morph_representative_directions":
